@@ -62,6 +62,19 @@ prop("C16", "PBT over parse histories of one spec structure (repeated parses thr
      "Exploration: well-formed specs of every class in every spelling are parsed 2-6 times (and their sub-structures in between); the caller's structure must stay type-exactly unchanged and every re-parse must equal and behave like the first.",
      TRUST, "DESIGN.md 3/C16")
 
+prop("C17", "PBT, metamorphic (path argument vs resolved literal) plus reference model; document-guided cross-references; spec and escaped spellings",
+     "Exploration: rules whose conditions have data-path arguments in every argument position (with modifiers, absent references, via DataPath objects and via specs) must give the same verdict and failures as the same rule with the argument replaced by the literal the reference resolves, and both must equal the reference rule test; escaped '\\path' literals are compared literally.",
+     TRUST, "DESIGN.md 3/C17")
+prop("C18", "PBT over generated add_schema/validate histories (model-based): expected rule lists built with the library's own '/', reference validation, fingerprints of T, metamorphic T-at-root cross-check",
+     "Exploration: histories adding the same T under different roots into the same and into different S, with validations in between; after every step S.rules equals the model's expected list, S validates like the reference over the expected rule terms, and every T is unchanged (fingerprint, equality with a fresh T, behaviour).",
+     TRUST, "DESIGN.md 3/C18")
+prop("C19", "fault injection from an enumerated catalogue of definite spec errors (must be rejected with a spec error) + structural mutation fuzzing of well-formed specs (must be accepted or cleanly rejected); exception-type oracle bucketed by frame",
+     "Exploration: every class of the catalogue of definite errors is enumerated and injected into generated well-formed specs at every nesting position: the parser must raise a Malformed* error, TypeError, ValueError or KeyError(missing field) and never accept; arbitrary 1-4 step structural mutations must be accepted or rejected with a listed type, never with AttributeError / IndexError / StopIteration / RuntimeError / RecursionError.",
+     TRUST + " Level fault_enumeration would also fit tier A; exploration is claimed for the whole check.", "DESIGN.md 3/C19")
+prop("C20", "PBT over generated prefix-closed schema trees with sentinel-bearing strings; structural model of the documentation tree; strict HTML tag-stack parser",
+     "Exploration: prefix-closed schemas (string/integer keys, bare map/list parts, and-combinations of type/length/membership/allowed/required-keys conditions, docs with metacharacters) for every sub-tree root, nested and flat, with and without anchor: rule/node bijection, parent-prefix order, flat==nested, required flags vs the model, HTML well-formed under a strict tag stack with every schema string only in escaped form.",
+     TRUST + " Python's html.parser is trusted as HTML tokenizer.", "DESIGN.md 3/C20")
+
 BUILT = [l.strip() for l in open(os.path.join(HERE, "tools", "built.txt")) if l.strip()]
 ALL = [f"C{i:02d}" for i in range(1, 21)]
 checks = []
